@@ -110,7 +110,7 @@ fn pad2880(b: &mut Vec<u8>, fill: u8) {
   }
 }
 /// IMPLICIT / NESTED HEALPix sky map with one f64 column
-fn skymap_fits(depth: u8, pix: &[u64]) -> Vec<u8> {
+pub fn skymap_fits(depth: u8, pix: &[u64]) -> Vec<u8> {
   let mut b = Vec::new();
   for (k, v) in [("SIMPLE", "T"), ("BITPIX", "8"), ("NAXIS", "0"), ("EXTEND", "T")] {
     b.extend(card(k, v));
